@@ -249,7 +249,7 @@ def run(prop, tier, seed, replay=None):
                             first_impl = im
                         if im == "PANIC":
                             st["panics"] += 1
-                        if im != m:
+                        if im != m and m != "N/A":      # "N/A": the model has no answer for this kind (oracle by construction)
                             st["tie_diffs"] += 1
                             if len(tie_diffs) < 20:
                                 tie_diffs.append({"stream": name, "case": prop.build_case(label, l), "build": label, "impl": im[:2000], "model": m[:2000]})
